@@ -2,9 +2,16 @@
     relation. Statements about the handlers' search functions over a resolved folder (any
     number of uses and modules), under the span discipline of the syntax tree ([ordered]:
     uses are disjoint and in document order — C11). That the definitions attached to the
-    uses are the lexical binders is C08; the conversion of spans to editor ranges is C16. *)
+    uses are the lexical binders is C08; the conversion of spans to editor ranges is C16.
+    The second half is the folder-level model (Model/Folder.v, run against the real server on
+    every check): modules, the node a definition points to, built-in definitions, qualified
+    variables. A definition request inside a use bound to a declaration or binding of any
+    module answers with that node; on a built-in, or outside every use, with nothing; a
+    references request on the identifier of a declaration answers with exactly the uses bound
+    to it in every module of the folder; each of them, asked for its definition, goes back to
+    that declaration; away from identifiers the answer is empty. *)
 From Coq Require Import Lia.
-From Oal Require Import Handlers HandlersProofs.
+From Oal Require Import Handlers HandlersProofs Folder FolderProofs.
 
 Theorem C17_goto_correct : forall us, ordered us -> forall u idx, In u us -> u_start u <= idx < u_end u ->
   definition_at us idx = u_def u.
@@ -28,3 +35,55 @@ Print Assumptions C17_refs_inverse.
 Example C17_ordered_inhabited :
   ordered [mk_use 4 9 6 9 (Some 1); mk_use 12 13 12 13 None; mk_use 20 25 20 25 (Some 1)].
 Proof. cbn. repeat split; try lia. Qed.
+
+(** folder level *)
+Theorem C17_folder_goto_correct : forall f m idx u d i n,
+  folder_ok f -> In u (uses_of (mod_at f m)) -> u_start u <= idx < u_end u ->
+  u_def u = Some d -> internal f d = false -> locate f d = Some (i, n) ->
+  f_goto f m idx = Some (i, n_start n, n_end n).
+Proof. exact f_goto_correct. Qed.
+Print Assumptions C17_folder_goto_correct.
+
+Theorem C17_folder_goto_builtin_is_empty : forall f m idx u d,
+  folder_ok f -> In u (uses_of (mod_at f m)) -> u_start u <= idx < u_end u ->
+  u_def u = Some d -> internal f d = true -> f_goto f m idx = None.
+Proof. exact f_goto_builtin. Qed.
+Print Assumptions C17_folder_goto_builtin_is_empty.
+
+Theorem C17_folder_goto_outside_is_empty : forall f m idx,
+  (forall u, In u (uses_of (mod_at f m)) -> ~ (u_start u <= idx < u_end u)) -> f_goto f m idx = None.
+Proof. exact f_goto_outside. Qed.
+Print Assumptions C17_folder_goto_outside_is_empty.
+
+Theorem C17_folder_references_of_declaration : forall f m idx n,
+  In n (fm_nodes (mod_at f m)) -> n_decl n = true -> n_istart n <= idx < n_iend n ->
+  (forall n', In n' (fm_nodes (mod_at f m)) -> n_decl n' = true -> n_istart n' <= idx < n_iend n' -> n_id n' = n_id n) ->
+  forall i s e, In (i, s, e) (f_references f m idx) <->
+    exists fm u, nth_error (f_mods f) i = Some fm /\ In u (uses_of fm) /\ u_def u = Some (n_id n) /\ s = u_istart u /\ e = u_iend u.
+Proof. exact f_references_of_declaration. Qed.
+Print Assumptions C17_folder_references_of_declaration.
+
+Theorem C17_folder_references_inverse : forall f m idx d md n,
+  folder_ok f -> f_find_definition f m idx = Some d -> internal f d = false -> locate f d = Some (md, n) ->
+  forall i s e, In (i, s, e) (f_references f m idx) -> f_goto f i s = Some (md, n_start n, n_end n).
+Proof. exact f_references_inverse. Qed.
+Print Assumptions C17_folder_references_inverse.
+
+Theorem C17_folder_references_from_a_use : forall f m idx v,
+  folder_ok f -> In v (fm_uses (mod_at f m)) -> on_ident v idx = true ->
+  (forall n, In n (fm_nodes (mod_at f m)) -> n_decl n = true -> ~ (n_istart n <= idx < n_iend n)) ->
+  f_find_definition f m idx = u_def (v_use v).
+Proof. exact f_find_definition_on_variable. Qed.
+Print Assumptions C17_folder_references_from_a_use.
+
+Theorem C17_folder_references_outside_is_empty : forall f m idx,
+  (forall n, In n (fm_nodes (mod_at f m)) -> n_decl n = true -> ~ (n_istart n <= idx < n_iend n)) ->
+  (forall v, In v (fm_uses (mod_at f m)) -> on_ident v idx = false) ->
+  f_references f m idx = [].
+Proof. exact f_references_outside. Qed.
+Print Assumptions C17_folder_references_outside_is_empty.
+
+Example C17_folder_inhabited : folder_ok ex_folder /\
+  f_goto ex_folder 0 43 = Some (1%nat, 0, 15) /\ f_goto ex_folder 0 52 = None /\
+  f_references ex_folder 1 5 = [(0%nat, 42, 46); (1%nat, 30, 34)].
+Proof. split; [exact ex_folder_ok|]. vm_compute. repeat split. Qed.
